@@ -213,8 +213,65 @@ pub fn fan_case(k: usize, swapped: bool, loc: &mut Local) -> Vec<(String, Value)
     out
 }
 
+/// needle triangles: one operand whose leftmost vertex is a needle thinner than float precision at its scale
+/// (the two edges leaving it are both left events of the SAME operand at one point, distinguished only by an
+/// exact orientation test), against a small shape above it that does not touch it. All coordinates are integers
+/// (exact in the float type used).
+pub fn needles() -> Vec<(MP, MP, Ft)> {
+    let tri = |p: [(f64, f64); 3]| geo_types::MultiPolygon(vec![poly_from(&p, &[])]);
+    let bx = |x0: f64, y0: f64, w: f64| geo_types::MultiPolygon(vec![poly_from(&[(x0, y0), (x0 + w, y0), (x0 + w, y0 + w), (x0, y0 + w)], &[])]);
+    let mut v = vec![];
+    for (ft, e) in [(Ft::F64, 27), (Ft::F32, 13)] {
+        let m = (1u64 << e) as f64;
+        for (dx, dy) in [(0.0, 0.0), (5.0, 3.0), (-7.0, 2.0)] {
+            for flip in [1.0, -1.0] {
+                let n = tri([(dx, dy * flip), (m + dx, (m - 1.0 + dy) * flip), (m + 1.0 + dx, (m + dy) * flip)]);
+                // make the ring counter-clockwise for flip = -1 as well (orientation is a variant anyway)
+                v.push((n.clone(), bx(10.0 + dx, (100.0 + dy) * flip - if flip < 0.0 { 10.0 } else { 0.0 }, 10.0), ft));
+                v.push((n, tri([(20.0 + dx, (200.0 + dy) * flip), (40.0 + dx, (210.0 + dy) * flip), (30.0 + dx, (260.0 + dy) * flip)]), ft));
+            }
+        }
+    }
+    v
+}
+
+pub fn needle_case(i: usize, swapped: bool, loc: &mut Local) -> Vec<(String, Value)> {
+    let (a, b, ft) = needles()[i].clone();
+    let (a, b) = if swapped { (b, a) } else { (a, b) };
+    let (va, vb) = (single_deviations(&a), single_deviations(&b));
+    let mut out = vec![];
+    for op in OPS {
+        let base = match call_full(&a, &b, op, ft, Pairing::MM).res {
+            Ok(r) => r,
+            Err(_) => continue,
+        };
+        loc.transitions += 1;
+        let nb = ring_set(&base, Nf::U);
+        let mut check = |x: &MP, y: &MP, desc: String, loc: &mut Local| {
+            loc.transitions += 1;
+            let ok = match call_full(x, y, op, ft, Pairing::MM).res {
+                Ok(r) => ring_set(&r, Nf::U) == nb,
+                Err(_) => false,
+            };
+            if !ok {
+                out.push((format!("C07 needle: representation-changes-result ({}) {} {}", ft.name(), desc.split(' ').next().unwrap_or(""), op_name(op)), json!({"variant": desc})));
+            }
+        };
+        for v in &va {
+            check(&v.mp, &b, format!("A:{}", v.desc), loc);
+        }
+        for v in &vb {
+            check(&a, &v.mp, format!("B:{}", v.desc), loc);
+        }
+    }
+    out
+}
+
 pub fn replay(case: &Value, verbose: bool) -> Vec<String> {
     let mut loc = Local::default();
+    if case["kind"] == "needle" {
+        return needle_case(case["i"].as_u64().unwrap() as usize, case["swapped"].as_bool().unwrap(), &mut loc).into_iter().map(|x| x.0).collect();
+    }
     if case["kind"] == "fan" {
         return fan_case(case["k"].as_u64().unwrap() as usize, case["swapped"].as_bool().unwrap(), &mut loc).into_iter().map(|x| x.0).collect();
     }
@@ -361,6 +418,19 @@ pub fn run(tier: &str) -> i32 {
             loc.nontrivial += 1;
             for (c, _) in fan_case(k, sw, &mut loc) {
                 loc.violation(&c, format!("fan:{k}:{sw}:{c}"), json!({"prop": "C07", "kind": "fan", "k": k, "swapped": sw}));
+            }
+            st.merge(&loc);
+        }
+    }
+    let nn = needles().len();
+    st.family(&format!("{nn} needle pairs (leftmost vertex a needle thinner than float precision; f64 at 2^27, f32 at 2^13) x 2 operand orders x every single deviation: identical ring sets"));
+    for i in 0..nn {
+        for sw in [false, true] {
+            let mut loc = Local::default();
+            loc.states += 1;
+            loc.nontrivial += 1;
+            for (c, _) in needle_case(i, sw, &mut loc) {
+                loc.violation(&c, format!("needle:{i}:{sw}:{c}"), json!({"prop": "C07", "kind": "needle", "i": i, "swapped": sw}));
             }
             st.merge(&loc);
         }
